@@ -9,7 +9,7 @@ from ..cfg import cfg_of
 from ..dag import T, walk, show
 from ..model import FunctionInfo, ClassInfo, AnalysisError, dotted
 from ..report import Ctx
-from ..util import norm, fn_body_nodes, walk_local, kwarg, parents, is_none_test
+from ..util import cmp_views, norm, fn_body_nodes, walk_local, kwarg, parents, is_none_test
 from .common import stmts_assigning_attr, return_nodes, calls_named, arg_permutation_rule, names_in
 
 EXPLANATION = (
@@ -206,7 +206,9 @@ def rule_option(ctx: Ctx):
     for st in fn_body_nodes(fi):
         if isinstance(st, ast.Assign) and st.value is a and isinstance(st.targets[0], ast.Name):
             aug_target = st.targets[0].id
-    ctx.check((isinstance(tm, ast.Name) and tm.id == aug_target) if tm is not None and aug_target else None, "OPT-3", fi, r,
+    # the augmented MDP reaches the roll-out through a local or is built in place
+    ok_tm = (isinstance(tm, ast.Name) and tm.id == aug_target) if aug_target else (tm is a)
+    ctx.check(ok_tm if tm is not None else None, "OPT-3", fi, r,
               "run_on(mdp=<augmented mdp>)", "runs on the termination-augmented MDP",
               f"policy runs on `{norm(tm) if tm is not None else None}`, not on the termination-augmented MDP `{aug_target}`")
     ist = kwarg(r, "initial_state")
@@ -332,7 +334,7 @@ def _clipped_reward(ctx: Ctx, outer: FunctionInfo, rf: FunctionInfo):
                       "clipping is applied before the terminal test")
             cn = clip_nodes[0]
             t2 = cn.ast.test
-            ok2 = isinstance(t2.ops[0], ast.Gt) and "max_nonterminal_pseudoreward" in ast.unparse(t2.comparators[0])
+            ok2 = any(op == ">" and "max_nonterminal_pseudoreward" in r_ and "max_nonterminal_pseudoreward" not in l_ for l_, op, r_ in cmp_views(t2))
             ctx.check(ok2 if ok2 else None, "SUB-2", rf, cn.ast, "clip when real_reward > cap", "", "unrecognised clipping comparison")
         else:
             # min(real, cap) form
